@@ -127,6 +127,24 @@ func (e *Engine) callFunc(fr *Frame, st *State, ins ssa.Instruction, fn *ssa.Fun
 		return v
 	}
 	c := e.contractFor(fn)
+	if fr.contract != nil && fr.caller == nil && !fr.ghost && len(fr.contract.CallsiteRequires) > 0 {
+		k := fnKey(fn)
+		short := k
+		if i := strings.LastIndex(short, "/"); i >= 0 {
+			short = short[i+1:]
+		}
+		local := strings.TrimPrefix(k, fr.contract.PkgPath+".")
+		for _, key := range []string{k, short, local, fn.Name()} {
+			if cls, ok := fr.contract.CallsiteRequires[key]; ok {
+				for _, cl := range cls {
+					g := e.evalClause(fr, st, fr.entry, cl, nil)
+					e.safetyN[e.curFunc+"/callsite/"+key]++
+					e.addObligation(fr, st, "pre", fmt.Sprintf("callsite.%s.%s#%d", key, cl.Label, e.safetyN[e.curFunc+"/callsite/"+key]), g, cl)
+				}
+				break
+			}
+		}
+	}
 	mode := ""
 	for f := fr; f != nil && mode == ""; f = f.caller {
 		if f.contract == nil {
